@@ -8,11 +8,6 @@ import GoluaVerif.Proofs.C18Rel
 namespace GoluaVerif.Proofs.C18
 open GoluaVerif.Spec.Gc GoluaVerif.Model.ClonePool GoluaVerif.Model.GcRuntime GoluaVerif.Model
 
-theorem droppedOrders_append (a b : List TEv) : droppedOrders (a ++ b) = droppedOrders a ++ droppedOrders b := by
-  induction a with
-  | nil => rfl
-  | cons e t ih => cases e <;> simp [droppedOrders, ih]
-
 theorem skipOrders_append (a b : List TEv) : skipOrders (a ++ b) = skipOrders a ++ skipOrders b := by
   induction a with
   | nil => rfl
@@ -22,11 +17,6 @@ theorem markOrders_append (a b : List TEv) : markOrders (a ++ b) = markOrders a 
   induction a with
   | nil => rfl
   | cons e t ih => cases e <;> simp [markOrders, ih]
-
-theorem droppedOrders_droppedEvs (l : List Entry) : droppedOrders (droppedEvs l) = ords l := by
-  induction l with
-  | nil => rfl
-  | cons e t ih => simp_all [droppedEvs, droppedOrders, ords]
 
 theorem skipOrders_skipEvs (l : List Entry) : skipOrders (skipEvs l) = ords l := by
   induction l with
@@ -52,11 +42,10 @@ theorem wantsFin_of_not_mark {tr : List TEv} {n : Nat} (h : n ∉ markOrders tr)
     | fin _ _ _ => exact (by unfold wantsFin at *; simpa [markOrders] using ih (by simpa [markOrders] using h))
     | rel _ _ _ => exact (by unfold wantsFin at *; simpa [markOrders] using ih (by simpa [markOrders] using h))
     | skip _ _ => exact (by unfold wantsFin at *; simpa [markOrders] using ih (by simpa [markOrders] using h))
-    | dropped _ _ => exact (by unfold wantsFin at *; simpa [markOrders] using ih (by simpa [markOrders] using h))
 
-/-- accounted for: finalised, queued, dropped or skipped -/
+/-- accounted for: handed to its finaliser already, or queued in pendingFinalize -/
 def Accounted (p : Pool) (n : Nat) : Prop :=
-  n ∈ finOrders p.tr ∨ n ∈ ords p.pf ∨ n ∈ droppedOrders p.tr ∨ n ∈ skipOrders p.tr
+  n ∈ finOrders p.tr ∨ n ∈ ords p.pf
 
 structure InvO (p : Pool) : Prop where
   markLe : ∀ n ∈ markOrders p.tr, n ≤ p.last
@@ -67,21 +56,15 @@ structure InvO (p : Pool) : Prop where
 theorem InvO.init (pid : Nat) : InvO { pid := pid } :=
   ⟨by simp [markOrders], by simp [markOrders], by simp [regL], by simp [regL]⟩
 
-/-- a trace extension that keeps every accounted epoch accounted -/
+/-- a step that keeps every accounted epoch accounted -/
 theorem Accounted.mono {p q : Pool} {n : Nat} (h : Accounted p n)
-    (hf : ∀ m ∈ finOrders p.tr, m ∈ finOrders q.tr) (hp : ∀ m ∈ ords p.pf, m ∈ ords q.pf ∨ m ∈ finOrders q.tr ∨ m ∈ droppedOrders q.tr ∨ m ∈ skipOrders q.tr)
-    (hd : ∀ m ∈ droppedOrders p.tr, m ∈ droppedOrders q.tr) (hs : ∀ m ∈ skipOrders p.tr, m ∈ skipOrders q.tr) :
+    (hf : ∀ m ∈ finOrders p.tr, m ∈ finOrders q.tr) (hp : ∀ m ∈ ords p.pf, m ∈ ords q.pf ∨ m ∈ finOrders q.tr) :
     Accounted q n := by
-  rcases h with h | h | h | h
+  rcases h with h | h
   · exact Or.inl (hf n h)
-  · rcases hp n h with h | h | h | h
-    · exact Or.inr (Or.inl h)
+  · rcases hp n h with h | h
+    · exact Or.inr h
     · exact Or.inl h
-    · exact Or.inr (Or.inr (Or.inl h))
-    · exact Or.inr (Or.inr (Or.inr h))
-  · exact Or.inr (Or.inr (Or.inl (hd n h)))
-  · exact Or.inr (Or.inr (Or.inr (hs n h)))
-
 
 theorem wantsFin_ext {tr ext : List TEv} (h : markOrders ext = []) (n : Nat) :
     wantsFin (tr ++ ext) n = wantsFin tr n := by
@@ -92,7 +75,7 @@ neither marks, and every queued/finalised/dropped/skipped epoch stays accounted 
 theorem InvO.of_ext {p q : Pool} (h : InvO p) {ext : List TEv}
     (htr : q.tr = p.tr ++ ext) (hm : markOrders ext = []) (hlast : p.last ≤ q.last)
     (hreg : (regL q).Sublist (regL p))
-    (hpf : ∀ m ∈ ords p.pf, m ∈ ords q.pf ∨ m ∈ finOrders q.tr ∨ m ∈ droppedOrders q.tr ∨ m ∈ skipOrders q.tr) :
+    (hpf : ∀ m ∈ ords p.pf, m ∈ ords q.pf ∨ m ∈ finOrders q.tr) :
     InvO q := by
   refine ⟨?_, ?_, h.regKeys.sublist hreg, ?_⟩
   · intro n hn
@@ -101,10 +84,8 @@ theorem InvO.of_ext {p q : Pool} (h : InvO p) {ext : List TEv}
   · rw [htr, markOrders_append, hm, List.append_nil]; exact h.markAsc
   · intro e he hf hw
     rw [htr, wantsFin_ext hm] at hw
-    refine (h.owed e (hreg.subset he) hf hw).mono ?_ hpf ?_ ?_
-    · intro m hm'; rw [htr, finOrders_append]; exact List.mem_append_left _ hm'
-    · intro m hm'; rw [htr, droppedOrders_append]; exact List.mem_append_left _ hm'
-    · intro m hm'; rw [htr, skipOrders_append]; exact List.mem_append_left _ hm'
+    refine (h.owed e (hreg.subset he) hf hw).mono ?_ hpf
+    intro m hm'; rw [htr, finOrders_append]; exact List.mem_append_left _ hm'
 
 theorem keys_inj {l : List Entry} (h : l.Pairwise (fun a b => a.val.key ≠ b.val.key)) {x y : Entry}
     (hx : x ∈ l) (hy : y ∈ l) (hxy : x.val.key = y.val.key) : x = y := by
@@ -174,11 +155,9 @@ theorem InvO.mark {p : Pool} (hi : Inv p) (h : InvO p) (o : Obj) (f r : Bool) : 
             have : (p.last + 1 == e.order) = false := by simp; omega
             simpa [this] using hw
           have hacc := h.owed e hep hf hw'
-          refine hacc.mono ?_ ?_ ?_ ?_
+          refine hacc.mono ?_ ?_
           · intro m hm; show m ∈ finOrders (p1.tr ++ [_]); rw [htr, finOrders_append]; exact List.mem_append_left _ hm
           · intro m hm; left; show m ∈ ords p1.pf; rw [hpf]; exact hm
-          · intro m hm; show m ∈ droppedOrders (p1.tr ++ [_]); rw [htr, droppedOrders_append]; exact List.mem_append_left _ hm
-          · intro m hm; show m ∈ skipOrders (p1.tr ++ [_]); rw [htr, skipOrders_append]; exact List.mem_append_left _ hm
         · -- the new entry: flagged only if finalisation was NOT asked for
           rw [List.mem_singleton.mp he] at hf hw
           simp only [Bool.not_eq_true'] at hf
@@ -234,17 +213,15 @@ theorem InvO.fire {p : Pool} (_hi : Inv p) (h : InvO p) (o : Obj) : InvO (CloneP
             by_cases hk : y.val.key = o.key
             · -- this is the entry being queued
               have hye : y = e := keys_inj (hr ▸ h.regKeys) hy hemem (hk.trans hekey.symm)
-              right; left
+              right
               show x.order ∈ ords (p.pf ++ [e])
               have : x.order = e.order := by rw [← hxy, hye]; split <;> rfl
               rw [this]; unfold ords; simp
             · have hxy' : x = y := by rw [← hxy]; simp [hk]
               rw [hxy'] at hxf hw' ⊢
-              refine (h.owed y (hr ▸ hy) hxf hw').mono ?_ ?_ ?_ ?_
+              refine (h.owed y (hr ▸ hy) hxf hw').mono ?_ ?_
               · intro m hm; show m ∈ finOrders (p.tr ++ [TEv.fired o]); rw [finOrders_append]; exact List.mem_append_left _ hm
               · intro m hm; left; show m ∈ ords (p.pf ++ [e]); unfold ords at hm ⊢; rw [List.map_append]; exact List.mem_append_left _ hm
-              · intro m hm; show m ∈ droppedOrders (p.tr ++ [TEv.fired o]); rw [droppedOrders_append]; exact List.mem_append_left _ hm
-              · intro m hm; show m ∈ skipOrders (p.tr ++ [TEv.fired o]); rw [skipOrders_append]; exact List.mem_append_left _ hm
         · refine h.of_ext (ext := [TEv.fired o]) rfl rfl (Nat.le_refl _) ?_ (fun m hm => Or.inl hm)
           show (regErase rg o.key).Sublist (regL p)
           rw [hr]; exact List.filter_sublist
@@ -261,7 +238,7 @@ theorem InvO.xPF {p : Pool} (h : InvO p) : InvO (ClonePool.xPF p) := by
     | cons e t ih => simpa [finEvs, markOrders] using ih
   · unfold regL; rw [hreg.1]; exact List.Sublist.refl _
   · intro m hm
-    right; left
+    right
     rw [h1, finOrders_append, finOrders_finEvs]
     exact List.mem_append_right _ (mem_ords_sortDesc.mpr hm)
 
@@ -280,11 +257,6 @@ theorem markOrders_skipEvs (l : List Entry) : markOrders (skipEvs l) = [] := by
   | nil => rfl
   | cons e t ih => simpa [skipEvs, markOrders] using ih
 
-theorem markOrders_droppedEvs (l : List Entry) : markOrders (droppedEvs l) = [] := by
-  induction l with
-  | nil => rfl
-  | cons e t ih => simpa [droppedEvs, markOrders] using ih
-
 theorem InvO.xPR {p : Pool} (h : InvO p) : InvO (ClonePool.xPR p) :=
   h.of_ext (ext := relEvs .pr (sortDesc p.pr)) rfl (markOrders_relEvs _ _) (Nat.le_refl _) (List.Sublist.refl _)
     (fun _ hm => Or.inl hm)
@@ -293,19 +265,17 @@ theorem InvO.xAR {p : Pool} (h : InvO p) : InvO (ClonePool.xAR p) :=
   h.of_ext (ext := relEvs .ar (arOut p)) rfl (markOrders_relEvs _ _) (Nat.le_refl _) (List.nil_sublist _)
     (fun _ hm => Or.inl hm)
 
-/-- close-time extraction: `out` is where the un-flagged entries go, `gone` where the queued ones go -/
-theorem InvO.af {p : Pool} (h : InvO p) (ext : List TEv) (hm : markOrders ext = [])
-    (hout : ∀ n ∈ ords (afOut p), n ∈ finOrders ext ∨ n ∈ skipOrders ext)
-    (hgone : ∀ n ∈ ords p.pf, n ∈ droppedOrders ext ∨ n ∈ skipOrders ext) :
-    InvO { afState p with tr := p.tr ++ ext } := by
-  have hrl : regL { afState p with tr := p.tr ++ ext } = setFinAll (regL p) := regL_afState p
+/-- `ExtractAllMarkedFinalize` with its results run: everything queued and everything still owed is
+handed out -/
+theorem InvO.xAF {p : Pool} (h : InvO p) : InvO (ClonePool.xAF p) := by
+  have htr : (ClonePool.xAF p).tr = p.tr ++ finEvs .af (afOut p) := rfl
+  have hm : markOrders (finEvs Kind.af (afOut p)) = [] := markOrders_finEvs _ _
+  have hrl : regL (ClonePool.xAF p) = setFinAll (regL p) := regL_afState p
   refine ⟨?_, ?_, ?_, ?_⟩
   · intro n hn
-    have h' : n ∈ markOrders (p.tr ++ ext) := hn
-    rw [markOrders_append, hm, List.append_nil] at h'
-    exact h.markLe n h'
-  · show (markOrders (p.tr ++ ext)).Pairwise _
-    rw [markOrders_append, hm, List.append_nil]; exact h.markAsc
+    rw [htr, markOrders_append, hm, List.append_nil] at hn
+    exact h.markLe n hn
+  · rw [htr, markOrders_append, hm, List.append_nil]; exact h.markAsc
   · rw [hrl]; exact setFinAll_keys h.regKeys
   · intro x hx _ hw
     rw [hrl] at hx
@@ -313,42 +283,34 @@ theorem InvO.af {p : Pool} (h : InvO p) (ext : List TEv) (hm : markOrders ext = 
     obtain ⟨y, hy, hxy⟩ := List.mem_map.mp hx
     have hxo : x.order = y.order := by rw [← hxy]
     have hw' : wantsFin p.tr y.order = true := by
-      have h' : wantsFin (p.tr ++ ext) x.order = true := hw
-      rwa [wantsFin_ext hm, hxo] at h'
+      rw [htr, wantsFin_ext hm, hxo] at hw; exact hw
     rw [hxo]
-    show y.order ∈ finOrders (p.tr ++ ext) ∨ y.order ∈ ords [] ∨ y.order ∈ droppedOrders (p.tr ++ ext) ∨ y.order ∈ skipOrders (p.tr ++ ext)
-    rw [finOrders_append, droppedOrders_append, skipOrders_append]
+    left
+    rw [htr, finOrders_append, finOrders_finEvs, afOut_eq]
     by_cases hyf : y.fin = false
-    · have : y.order ∈ ords (afOut p) := by
-        rw [afOut_eq]
-        exact mem_ords_sortDesc.mpr (mem_ords.mpr ⟨y, List.mem_filter.mpr ⟨hy, by simpa using hyf⟩, rfl⟩)
-      rcases hout _ this with h1 | h1
-      · exact Or.inl (List.mem_append_right _ h1)
-      · exact Or.inr (Or.inr (Or.inr (List.mem_append_right _ h1)))
+    · exact List.mem_append_right _ (mem_ords_sortDesc.mpr (mem_ords.mpr
+        ⟨y, List.mem_append_right _ (List.mem_filter.mpr ⟨hy, by simpa using hyf⟩), rfl⟩))
     · have hyt : y.fin = true := by simpa using hyf
-      rcases h.owed y hy hyt hw' with h1 | h1 | h1 | h1
-      · exact Or.inl (List.mem_append_left _ h1)
-      · rcases hgone _ h1 with h2 | h2
-        · exact Or.inr (Or.inr (Or.inl (List.mem_append_right _ h2)))
-        · exact Or.inr (Or.inr (Or.inr (List.mem_append_right _ h2)))
-      · exact Or.inr (Or.inr (Or.inl (List.mem_append_left _ h1)))
-      · exact Or.inr (Or.inr (Or.inr (List.mem_append_left _ h1)))
+      rcases h.owed y hy hyt hw' with h1 | h1
+      · exact List.mem_append_left _ h1
+      · obtain ⟨e, he, heo⟩ := mem_ords.mp h1
+        exact List.mem_append_right _ (mem_ords_sortDesc.mpr (mem_ords.mpr ⟨e, List.mem_append_left _ he, heo⟩))
 
-theorem InvO.xAF {p : Pool} (h : InvO p) : InvO (ClonePool.xAF p) := by
-  have := h.af (droppedEvs p.pf ++ finEvs .af (afOut p))
-    (by rw [markOrders_append, markOrders_droppedEvs, markOrders_finEvs]; rfl)
-    (fun n hn => Or.inl (by rw [finOrders_append, finOrders_droppedEvs, finOrders_finEvs]; exact hn))
-    (fun n hn => Or.inl (by rw [droppedOrders_append, droppedOrders_droppedEvs]; exact List.mem_append_left _ hn))
-  unfold ClonePool.xAF
-  simpa [afState, List.append_assoc] using this
-
-theorem InvO.skipAF {p : Pool} (h : InvO p) : InvO (ClonePool.skipAF p) := by
-  have := h.af (skipEvs p.pf ++ skipEvs (afOut p))
-    (by rw [markOrders_append, markOrders_skipEvs, markOrders_skipEvs]; rfl)
-    (fun n hn => Or.inr (by rw [skipOrders_append, skipOrders_skipEvs, skipOrders_skipEvs]; exact List.mem_append_right _ hn))
-    (fun n hn => Or.inr (by rw [skipOrders_append, skipOrders_skipEvs]; exact List.mem_append_left _ hn))
-  unfold ClonePool.skipAF
-  simpa [afState, List.append_assoc] using this
+/-- `PopContext`: the register is gone afterwards, nothing is owed any more -/
+theorem InvO.popRel {p : Pool} (h : InvO p) : InvO (ClonePool.xAR (ClonePool.skipAF p)) := by
+  have htr : (ClonePool.xAR (ClonePool.skipAF p)).tr =
+      p.tr ++ (skipEvs (afOut p) ++ relEvs .ar (arOut (ClonePool.skipAF p))) := by
+    simp [ClonePool.xAR, ClonePool.skipAF, afState, List.append_assoc]
+  have hm : markOrders (skipEvs (afOut p) ++ relEvs .ar (arOut (ClonePool.skipAF p))) = [] := by
+    rw [markOrders_append, markOrders_skipEvs, markOrders_relEvs]; rfl
+  have hrl : regL (ClonePool.xAR (ClonePool.skipAF p)) = [] := rfl
+  refine ⟨?_, ?_, ?_, ?_⟩
+  · intro n hn
+    rw [htr, markOrders_append, hm, List.append_nil] at hn
+    exact h.markLe n hn
+  · rw [htr, markOrders_append, hm, List.append_nil]; exact h.markAsc
+  · rw [hrl]; exact List.Pairwise.nil
+  · intro x hx; rw [hrl] at hx; cases hx
 
 /-- both invariants together -/
 structure InvAll (p : Pool) : Prop where
@@ -373,7 +335,7 @@ theorem InvAll.use {p : Pool} (h : InvAll p) (u : Use) : InvAll (ClonePool.use p
   | xAR => exact h.owed.xAR
   | step => exact h.owed.xPF.xPR
   | finAll => exact h.owed.xAF
-  | popRel => exact h.owed.skipAF.xAR
+  | popRel => exact h.owed.popRel
 
 theorem InvAll.foldl {p : Pool} (h : InvAll p) (us : List Use) : InvAll (us.foldl ClonePool.use p) := by
   induction us generalizing p with
